@@ -255,7 +255,17 @@ def check_config(ctx, T, cfg, tier, seed):
             for fname, f, ref in (("jacobian", t0.jacobian, jac[:k2]), ("forward", t0.forward, reff)):
                 if ref is None:
                     continue
-                out, e = call(f, arr.copy() if lname != "1d-strided" else arr)
+                # hand over the layout itself (a plain .copy() would silently turn it into a C-contiguous array)
+                if lname == "2d-fortran":
+                    a_in = np.array(arr, order="F", copy=True)
+                elif lname == "2d-transposed-view":
+                    a_in = xe.reshape(2, -1).copy().T
+                elif lname == "1d-strided":
+                    b2 = big.copy()
+                    a_in = b2[1::2]
+                else:
+                    a_in = arr.copy()
+                out, e = call(f, a_in)
                 ctx.case(True, n=k2)
                 if e is not None:
                     ctx.count("layout.rejected.%s.%s" % (lname, type(e).__name__))
